@@ -482,7 +482,26 @@ func runC45(c *Ctx) {
 				return ok && len(r.Results) == 2 && isNilIdent(info, r.Results[0]) && isNilIdent(info, r.Results[1])
 			}
 			same := f.FactEdges(func(cm cmp) bool { return cm.Op == token.EQL && isObj(info, cm.R, elem) })
-			has := f.BoolEdges(func(e ast.Expr) bool { id, ok := e.(*ast.Ident); return ok && id.Name == "hasLast" }, true)
+			// the closure's state, declared outside it: a flag (bool) and the previous element (same type as the element)
+			captured := func(id *ast.Ident) *types.Var {
+				v, ok := info.ObjectOf(id).(*types.Var)
+				if !ok || v.IsField() || (v.Pos() >= l.Pos() && v.Pos() < l.End()) {
+					return nil
+				}
+				return v
+			}
+			has := f.BoolEdges(func(e ast.Expr) bool {
+				id, ok := e.(*ast.Ident)
+				if !ok {
+					return false
+				}
+				v := captured(id)
+				if v == nil {
+					return false
+				}
+				b, isB := v.Type().Underlying().(*types.Basic)
+				return isB && b.Info()&types.IsBoolean != 0
+			}, true)
 			c.guardedBy(f, same, suppress, "dedup/suppress⇒equal-previous", "Deduplicate suppresses an element only when it equals the previously emitted one", where)
 			c.guardedBy(f, has, suppress, "dedup/suppress⇒has-previous", "Deduplicate suppresses nothing before the first element", where)
 			emit := func(n ast.Node) bool {
@@ -499,7 +518,11 @@ func runC45(c *Ctx) {
 					return false
 				}
 				id, ok := as.Lhs[0].(*ast.Ident)
-				return ok && id.Name == "last" && isObj(info, as.Rhs[0], elem)
+				if !ok || !isObj(info, as.Rhs[0], elem) {
+					return false
+				}
+				v := captured(id)
+				return v != nil && elem != nil && types.Identical(v.Type(), elem.Type())
 			}
 			w := f.search(searchSpec{avoid: setLast, target: emit})
 			c.Check(w == nil && len(f.Find(emit)) == 1, "dedup/emit⇒recorded", "every emitted element becomes the new 'previous'", where, f.describe(w))
